@@ -711,6 +711,7 @@ pub fn run_one(scn: u64, s: &Sched) -> OneResult {
             windows: r.get("windows").and_then(|v| v.as_bool()).unwrap_or(true),
             mode: cfg_str(&s.cfg, "mode", "always").to_string(),
             far: r.get("far").and_then(|v| v.as_bool()).unwrap_or(false),
+            hold: cfg_u64(r, "hold", 0),
         });
     }
     st.run_steps(None);
@@ -746,6 +747,8 @@ pub struct Gen {
     windows: bool,
     mode: String,
     far: bool,
+    /// the dispatch is not polled during the first `hold` steps: its very first poll then finds work (calls, faults) waiting
+    hold: u64,
 }
 
 impl Gen {
@@ -777,7 +780,9 @@ impl Gen {
             ch.push((14, json!({"a":"Call","c":self.next_c,"dl":dl,"h":h,"tr":100 + self.next_c,
                                 "sampled": rng.gen_bool(0.5)})));
         }
-        if alive && st.dflag.is_set() {
+        if self.hold > 0 {
+            self.hold -= 1;
+        } else if alive && st.dflag.is_set() {
             ch.push((30, json!({"a":"Poll","t":"d"})));
         }
         let live: Vec<u64> = st.calls.iter().filter(|(_, s)| s.fut.is_some()).map(|(c, _)| *c).collect();
@@ -863,7 +868,8 @@ pub fn random_sched(i: u64, rng: &mut StdRng, a: &Args) -> Sched {
                      "random": {"seed": rng.gen::<u32>(), "len": rng.gen_range(8..60u64),
                                 "calls": rng.gen_range(1..=a.opt_u64("calls", 5)),
                                 "faults": faults, "windows": a.opt_u64("windows", 1) == 1,
-                                "far": a.opt_u64("far", 0) == 1}});
+                                "far": a.opt_u64("far", 0) == 1,
+                                "hold": if rng.gen_range(0..4) == 0 { rng.gen_range(3..9u64) } else { 0 }}});
     Sched {
         id: format!("r{}", i),
         cfg,
